@@ -74,7 +74,8 @@ def get_widths(seq: Iterable[object]) -> Dict[Union[str, int], float]:
             if len(r) == 3:
                 (char1, char2, w) = r
                 if isinstance(char1, int) and isinstance(char2, int):
-                    for i in range(cast(int, char1), cast(int, char2) + 1):
+                    # CIDs do not exceed 65535
+                    for i in range(max(cast(int, char1), 0), min(cast(int, char2), 65535) + 1):
                         widths[i] = w
                 else:
                     log.warning(
@@ -103,7 +104,8 @@ def get_widths2(seq: Iterable[object]) -> Dict[int, Tuple[float, Point]]:
             r.append(v)
             if len(r) == 5:
                 (char1, char2, w, vx, vy) = r
-                for i in range(cast(int, char1), cast(int, char2) + 1):
+                # CIDs do not exceed 65535
+                for i in range(max(cast(int, char1), 0), min(cast(int, char2), 65535) + 1):
                     widths[i] = (w, (vx, vy))
                 r = []
     return widths
